@@ -357,6 +357,15 @@ def run(chk):
         chk.count(R.case_json(c), nontrivial=len(c["J"]) > 1 and c["cat"] != "zero")
         for dt in ("f64", "f32"):
             (oracle_mgda if c["name"] == "MGDA" else oracle_cagrad)(chk, c, dt, found)
+    # MGDA at the ends of the range in which its Gramian is representable: the defining clauses (checked above
+    # at scale 1) must survive the exact factor 2^e
+    n_ext = 0
+    for c in cases:
+        if c["name"] == "MGDA" and len(c["J"]) >= 2 and n_ext < (6 if q else 60) and float(A.sigma_max(c["J"])) > 0 \
+                and c["params"]["max_iters"] >= 1 and R.well_conditioned(c["J"], "MGDA", {**c["params"], "max_iters": min(c["params"]["max_iters"], 20)}):
+            n_ext += 1
+            R.extreme_scales(chk, found, c, {"f64": 1e-6, "f32": 5e-3}, "C18")
+    chk.notes["extreme_scale_cases"] = n_ext
     R.report_corr(chk, dis, found)
     chk.cov["rule"] = ("PCGrad: random conflicting matrices m<=4, ALL (m-1)!^m projection orders "
                        "enumerated by the model and by an exact reference, implementation under "
@@ -373,6 +382,9 @@ def replay(chk, obj):
     c = {"name": obj["aggregator"], "params": A.unjson(obj["params"]), "J": A.unjson(obj["J"]),
          "cat": obj.get("cat", "")}
     dt = obj.get("dtype", "f64")
+    if obj.get("kind") == "extreme_scale":
+        c["params"]["max_iters"] = int(c["params"]["max_iters"])
+        return R.extreme_scales(chk, found, c, {"f64": 1e-6, "f32": 5e-3}, "C18", dts=(obj.get("dtype", "f64"),))
     if c["name"] == "MGDA":
         c["params"]["max_iters"] = int(c["params"]["max_iters"])
         pre = R.presibling(c)
